@@ -98,7 +98,7 @@ namespace verif {
             "once_after_status_reset", "ss_done", "ss_add", "when_all_finish", "ciq_pop_left",
             "ciq_pop_right", "join_between", "exit_callbacks", "stop_before_cas", "stop_dequeued",
             "stop_executed", "stop_remove_after_unlink", "gac_inc", "gac_dec", "tm_wait_pred",
-            "pu_suspend", "pu_resume", "select_active_pu", "cva_before_lock", "cva_after_user_unlock"};
+            "pu_suspend", "pu_resume", "select_active_pu", "cva_before_lock", "cva_after_user_unlock", "mpi_request_queued", "mpi_ready_enqueued", "mpi_ready_dequeued", "mpi_callback_done"};
         static_assert(sizeof(n) / sizeof(n[0]) == pv::site_count, "site table out of date");
         return s < pv::site_count ? n[s] : "?";
     }
